@@ -11,7 +11,12 @@ PreTwo   == [loose |-> L({"k1"}), packs |-> (0 :> <<"k1", "k2">> @@ 1 :> <<"k3">
 PreLoose == [loose |-> L({"k1", "k2", "k3"}), packs |-> (0 :> <<>> @@ 1 :> <<>>), exists |-> {}, idx |-> {}]
 PreBoth  == [loose |-> L({"k1", "k2"}), packs |-> (0 :> <<"k1">> @@ 1 :> <<>>), exists |-> {0}, idx |-> {R("k1", 0, 1)}]
 
-C(op, pre, ks, nh, pp) == [op |-> op, pre |-> pre, ks |-> ks, noholes |-> nh, perpack |-> pp]
+One == [k \in MCKeys |-> 1]
+Szs == [k \in MCKeys |-> IF k = "k3" THEN 3 ELSE IF k = "k2" THEN 2 ELSE 1]
+CX(op, pre, ks, nh, pp, sz, target, budget) ==
+    [op |-> op, pre |-> pre, ks |-> ks, noholes |-> nh, perpack |-> pp, sz |-> sz, target |-> target, budget |-> budget]
+C(op, pre, ks, nh, pp) == CX(op, pre, ks, nh, pp, One, 99, 99)
+PreNone == [loose |-> L({}), packs |-> (0 :> <<>> @@ 1 :> <<>>), exists |-> {}, idx |-> {}]
 
 MCCases ==
     {C("repack", pre, <<>>, FALSE, FALSE) : pre \in {PreDel, PreTwo, PreBoth}}
@@ -21,5 +26,12 @@ MCCases ==
     \cup {C("pack", PreLoose, ks, FALSE, pp) : pp \in BOOLEAN, ks \in {<<"k1", "k2", "k3">>, <<"k3", "k1", "k2">>}}
     \cup {C("pack", PreBoth, <<"k2">>, FALSE, pp) : pp \in BOOLEAN}
     \cup {C("clean", PreBoth, <<"k1">>, FALSE, FALSE), C("clean", PreTwo, <<"k1">>, FALSE, FALSE)}
+    (* roll-over to the next pack (target 2 or 3 units), with and without no_holes / per-pack cleaning *)
+    \cup {CX("addpack", pre, ks, nh, FALSE, One, 2, 99) : pre \in {PreNone, PreBoth}, nh \in BOOLEAN,
+              ks \in {<<"k2", "k3", "k4">>, <<"k1", "k2", "k1", "k3">>}}
+    \cup {CX("pack", PreLoose, ks, FALSE, pp, Szs, 3, 99) : pp \in BOOLEAN, ks \in {<<"k1", "k2", "k3">>, <<"k3", "k1", "k2">>}}
+    (* import: batches by memory budget, objects above the budget, roll-over, keys the destination already has *)
+    \cup {CX("import", pre, ks, FALSE, FALSE, Szs, target, budget) : pre \in {PreNone, PreBoth}, target \in {3, 99}, budget \in {1, 2, 3, 99},
+              ks \in {<<"k1", "k2", "k3", "k4">>, <<"k3", "k4", "k2">>}}
     \cup {C("add", pre, <<k>>, FALSE, FALSE) : pre \in {PreBoth, PreLoose}, k \in {"k1", "k4"}}
 ==============================================================================
